@@ -68,7 +68,7 @@ func secondKey(cacheDir, spec string) crypto.Signer {
 		k, err = ecdsa.GenerateKey(elliptic.P521(), rand.Reader)
 	}
 	if err != nil || k == nil {
-		panic(fmt.Sprintf("secondKey %s: %v", spec, err))
+		fatal(fmt.Sprintf("secondKey %s: %v", spec, err))
 	}
 	if path != "" {
 		if b, err := x509.MarshalPKCS8PrivateKey(k); err == nil {
@@ -124,13 +124,13 @@ func rawSign(key crypto.Signer, h crypto.Hash, data []byte) []byte {
 	case *rsa.PrivateKey:
 		sig, err := rsa.SignPSS(rand.Reader, k, h, d, &rsa.PSSOptions{SaltLength: rsa.PSSSaltLengthEqualsHash})
 		if err != nil {
-			panic(err)
+			fatal(err.Error())
 		}
 		return sig
 	case *ecdsa.PrivateKey:
 		r, s, err := ecdsa.Sign(rand.Reader, k, d)
 		if err != nil {
-			panic(err)
+			fatal(err.Error())
 		}
 		n := (k.Curve.Params().BitSize + 7) / 8
 		sig := make([]byte, 2*n)
@@ -138,7 +138,8 @@ func rawSign(key crypto.Signer, h crypto.Hash, data []byte) []byte {
 		s.FillBytes(sig[n:])
 		return sig
 	}
-	panic("rawSign: unsupported key")
+	fatal("rawSign: unsupported key")
+	return nil
 }
 
 func signWithMode(mode string, ks *keySet, data []byte) []byte {
@@ -156,7 +157,8 @@ func signWithMode(mode string, ks *keySet, data []byte) []byte {
 	case "emptySig":
 		return []byte{}
 	}
-	panic("signWithMode: " + mode)
+	fatal("signWithMode: " + mode)
+	return nil
 }
 
 // buildJWS assembles a JWS JSON-serialization envelope around payload bytes that are carried
@@ -230,4 +232,11 @@ func buildCOSE(payload []byte, cty, key string, chain [][]byte, sign func([]byte
 	}
 	msg.Headers.Unprotected[cose.HeaderLabelX5Chain] = certs
 	return msg.MarshalCBOR()
+}
+
+// fatal reports a bug of the harness itself: loud, and never mistaken for a panic of the signer
+// (the signing calls run under recover).
+func fatal(msg string) {
+	fmt.Fprintln(os.Stderr, "c18 harness:", msg)
+	os.Exit(3)
 }
